@@ -1,15 +1,15 @@
 # C01 spec (see tools/props.py)
 SPEC = {
         "ready": True,
-        "sources": ["c01.cpp", "c01_fpexc.cpp"], "lib": ["half.cpp"],
+        "sources": ["c01.cpp", "c01_fpexc.cpp", "c01_nolut.cpp"], "lib": ["half.cpp"],
         "technique": "exhaustive enumeration of all 2^32 + 2^16 bit patterns against a definition-level binary16 model and the F16C hardware",
-        "level_text": "Every one of the 2^16 half and 2^32 float bit patterns is run through the real conversion code (C functions, C++ constructor, operator=(float) and cast, round trip), under the default floating-point state and again under each non-default rounding mode and each MXCSR denormal mode (DAZ, FTZ, DAZ+FTZ), and compared with an independent definition-level model of binary16 round-to-nearest-even and with the CPU's F16C converter; the input space is finite and is enumerated completely in the quick tier, so this decides the property for the default build configuration. The IMATH_HALF_ENABLE_FP_EXCEPTIONS variant of the same code is compiled in a second translation unit and swept as well (quick: the boundary subset of 679808 inputs around every rounding boundary, every exponent and every literal threshold; thorough: all 2^32), bits against the same model and FE_OVERFLOW / FE_UNDERFLOW against the documentation, per input.",
+        "level_text": "Every one of the 2^16 half and 2^32 float bit patterns is run through the real conversion code (C functions, C++ constructor, operator=(float) and cast, round trip), under the default floating-point state and again under each non-default rounding mode and each MXCSR denormal mode (DAZ, FTZ, DAZ+FTZ), and compared with an independent definition-level model of binary16 round-to-nearest-even and with the CPU's F16C converter; the input space is finite and is enumerated completely in the quick tier, so this decides the property for the default build configuration. The IMATH_HALF_ENABLE_FP_EXCEPTIONS variant of the same code is compiled in a second translation unit and swept as well (quick: the boundary subset of 679808 inputs around every rounding boundary, every exponent and every literal threshold; thorough: all 2^32), bits against the same model and FE_OVERFLOW / FE_UNDERFLOW against the documentation, per input. The IMATH_HALF_NO_LOOKUP_TABLE variant (the table-free shift/renormalise half->float body that the default build never executes) is compiled in a third translation unit: all 2^16 half patterns through the C function, the C++ cast and both round trips, and the float->half boundary subset through the three routes, each under the seven ambient states.",
         "level_note": "Trusts the reference model (self-checked against a binary-search formulation on all decision boundaries), x86-64 long double/double arithmetic and, where present, the F16C instructions; covers the repository's default configuration only (other back-ends: C02).",
         "deadline": {"quick": 240, "thorough": 900},
         "rule": "exhaustive enumeration of all 2^16 half and all 2^32 float bit patterns on the real conversion code "
-                "(C functions, C++ constructor / operator=(float) / cast) under seven ambient floating-point states, plus the FP-exceptions build variant; non-trivial = input is, by a predicate on the input bits, an exact "
+                "(C functions, C++ constructor / operator=(float) / cast) under seven ambient floating-point states, plus the FP-exceptions and the no-lookup-table build variants; non-trivial = input is, by a predicate on the input bits, an exact "
                 "tie, has a subnormal result, lies within the overflow [65504,65536] or flush [2^-25,2^-24] windows, or is a NaN "
                 "(classes counted separately; 'generic' excluded)",
         "assumptions": ["long double has a 64-bit significand (x86-64), so every float, half value and midpoint is exact in the oracle",
-                        "harness compiled with the repository's default configuration (lookup table); other back-ends are C02"],
+                        "harness compiled with the repository's default configuration (lookup table) plus the IMATH_HALF_ENABLE_FP_EXCEPTIONS and IMATH_HALF_NO_LOOKUP_TABLE variants; the F16C back-end and the C API are C02"],
     }
